@@ -61,7 +61,16 @@ Inductive tstep :=
 | TCall (k : N)                       (* call s<k>; / testing.call_subroutine("s<k>"); *)
 | TRaise
 | TAssertFlag (f : N) (want : bool)   (* assert.equal(req.http.f, "1") / assert.is_notset(req.http.f) *)
-| TAssertConst (holds : bool).        (* an assertion of any kind over constants *)
+| TAssertConst (holds : bool)         (* an assertion of any kind over constants *)
+(* per-test state behind the testing.* helpers (tables, injected variables, mocks, fixed time, host,
+   backend health, access rate, req.backend): resource r holds a small number, 0 = untouched *)
+| TRes (r v : N)                      (* a helper / statement that puts resource r in state v *)
+| TAssertRes (r v : N).               (* an assertion that observes resource r to be in state v *)
+
+Definition rstore := list (N * N).
+Fixpoint rget (r : N) (s : rstore) : N :=
+  match s with [] => 0%N | (k, v) :: t => if N.eqb r k then v else rget r t end.
+Definition tstate := (flags * rstore)%type.
 
 Definition program := list (N * iblock).
 Fixpoint find_sub (k : N) (p : program) : option iblock :=
@@ -71,29 +80,31 @@ Section Inst.
 Variable cov : bool.                  (* --coverage: the main VCL is instrumented *)
 Variable P : program.
 
-Definition interp (s : tstep) : step unit N flags :=
+Definition interp (s : tstep) : step unit N tstate :=
   match s with
-  | TSet f => Act (fun _ fl => (add f fl, [], true))
-  | TUnset f => Act (fun _ fl => (del f fl, [], true))
-  | TLog m => Act (fun _ fl => (fl, [m], true))
-  | TCall k => Act (fun _ fl =>
+  | TSet f => Act (fun _ σ => ((add f (fst σ), snd σ), [], true))
+  | TUnset f => Act (fun _ σ => ((del f (fst σ), snd σ), [], true))
+  | TLog m => Act (fun _ σ => (σ, [m], true))
+  | TCall k => Act (fun _ σ =>
       match find_sub k P with
-      | None => (fl, [], false)
-      | Some b => match iexec (if cov then iinstr b else b) (fl, [], false) with
-                  | OK (_, (fl', lg, raised)) => (fl', lg, negb raised)
-                  | _ => (fl, [], false)         (* falling through the last case of a switch *)
+      | None => (σ, [], false)
+      | Some b => match iexec (if cov then iinstr b else b) (fst σ, [], false) with
+                  | OK (_, (fl', lg, raised)) => ((fl', snd σ), lg, negb raised)
+                  | _ => (σ, [], false)          (* falling through the last case of a switch *)
                   end
       end)
-  | TRaise => Act (fun _ fl => (fl, [], false))
-  | TAssertFlag f want => Assert (fun _ fl => Bool.eqb (has f fl) want)
+  | TRaise => Act (fun _ σ => (σ, [], false))
+  | TAssertFlag f want => Assert (fun _ σ => Bool.eqb (has f (fst σ)) want)
   | TAssertConst h => Assert (fun _ _ => h)
+  | TRes r v => Act (fun _ σ => ((fst σ, (r, v) :: snd σ), [], true))
+  | TAssertRes r v => Assert (fun _ σ => N.eqb (rget r (snd σ)) v)
   end.
 
-Definition irun_body (sc : unit) (b : list tstep) (σ : flags) :=
-  run_body_steps unit N flags sc (map interp b) σ.
+Definition irun_body (sc : unit) (b : list tstep) (σ : tstate) :=
+  run_body_steps unit N tstate sc (map interp b) σ.
 
 Definition itest := test unit (list tstep).
 Definition irun_file (ts : list itest) : list (tcase unit N) * counter :=
-  run_file unit N flags (list tstep) irun_body [] ts c0.
+  run_file unit N tstate (list tstep) irun_body ([], []) ts c0.
 
 End Inst.
